@@ -91,25 +91,27 @@ func checkPNorm(p float64, dist bool) func(n int, x, y []float64, gr, gi float64
 	}
 }
 
+// checkInfNorm: Norm(s, Inf) folds math.Max over |s[i]| (so +Inf wins over a
+// NaN, whatever the order, and a NaN without any Inf gives NaN);
+// Distance(s, t, Inf) keeps a difference only when it compares greater, so
+// NaN differences are skipped.
 func checkInfNorm(dist bool) func(n int, x, y []float64, gr, gi float64, exact bool) (bool, float64, float64, string) {
 	return func(n int, x, y []float64, gr, gi float64, exact bool) (bool, float64, float64, string) {
 		want := 0.0
 		for i := range x {
-			v := x[i]
 			if dist {
-				v = y[i] - x[i]
-			}
-			if math.IsNaN(v) {
-				if dist {
-					continue // Distance documents no NaN rule; its loop skips NaN differences
+				if av := math.Abs(y[i] - x[i]); av > want {
+					want = av
 				}
-				return math.IsNaN(gr), math.NaN(), 0, "non-finite-class"
+				continue
 			}
-			if av := math.Abs(v); av > want {
-				want = av
-			}
+			want = math.Max(want, math.Abs(x[i]))
 		}
-		return gr == want, want, 0, "not-the-maximum"
+		clause := "not-the-maximum"
+		if !finiteF(want) {
+			clause = "non-finite-class"
+		}
+		return sameF(gr, want), want, 0, clause
 	}
 }
 
